@@ -69,17 +69,16 @@ theorem passVisitor_ok {f : PassFn} {n : Node} {w : Walk} {c : Bool} {n' : Node}
 section Eqns
 variable {σ ε : Type} (f : Visitor σ ε)
 
-/-- `skip_children = false; depth += 1`. -/
-def Walk.enter (w : Walk) : Walk :=
-  { skipChildren := false, depth := w.depth + 1, inLookbehind := w.inLookbehind, unicode := w.unicode }
 /-- `depth -= 1`. -/
 def Walk.leave (w : Walk) : Walk := { w with depth := w.depth - 1 }
 
-/-- `depth -= 1`, then the visitor. -/
+/-- `depth -= 1`, then the visitor (`postVisit` of the model). -/
 def finish (r : Except ε (Node × Walk × σ)) : Except ε (Node × Walk × σ) :=
   match r with
   | .error e => .error e
   | .ok (n, w, s) => f n w.leave s
+
+theorem finish_eq_postVisit (r : Except ε (Node × Walk × σ)) : postVisit f r = finish f r := rfl
 
 theorem processPost_cat (ns : List Node) (w : Walk) (s : σ) :
     processPost f (.cat ns) w s =
